@@ -420,6 +420,355 @@ func emitFunc(out *strings.Builder, pi *pkgInfo, name string) {
 	fmt.Fprintf(out, "(* %s.%s: not found *)\n", pi.name, name)
 }
 
+// ---------- functions over slices that are written (MiniGo/Slice.v) ----------
+// Recognised: slice parameters and one slice result of fixed-width integers or float32 (carried as bit patterns),
+// `x := e`, `s := make([]T, e)`, `s[i] = e`, `binary.BigEndian.PutUint16/32(s or s[lo:], e)`, `for i := range s`,
+// `for i, v := range s`, `return s`; in expressions also `/`, `len(s)`, `s[i]`, `binary.BigEndian.Uint16/32(s, s[lo:]
+// or s[lo:hi])`, `math.Float32bits(e)`, `math.Float32frombits(e)`. Every identifier may be declared once.
+func elemTy(pi *pkgInfo, n ast.Node, t types.Type) string {
+	if b, ok := t.Underlying().(*types.Basic); ok && b.Kind() == types.Float32 {
+		return "(TU 32)" // a float32 is carried as its bit pattern
+	}
+	return coqTy(pi, n, t)
+}
+
+func isFloat(t types.Type) bool {
+	if t == nil {
+		return false
+	}
+	b, ok := t.Underlying().(*types.Basic)
+	return ok && b.Info()&types.IsFloat != 0
+}
+
+func sliceIdent(pi *pkgInfo, e ast.Expr) (string, bool) {
+	id, ok := e.(*ast.Ident)
+	if !ok {
+		return "", false
+	}
+	v, ok := pi.info.Uses[id].(*types.Var)
+	if !ok {
+		return "", false
+	}
+	if _, ok := v.Type().Underlying().(*types.Slice); !ok {
+		return "", false
+	}
+	return id.Name, true
+}
+
+// s, s[lo:] or s[lo:hi] as the argument of a big-endian accessor
+func beArg(pi *pkgInfo, e ast.Expr) (name, lo, hi string) {
+	if n, ok := sliceIdent(pi, e); ok {
+		return n, "(XConst 0%Z)", "None"
+	}
+	se, ok := e.(*ast.SliceExpr)
+	if !ok || se.Slice3 {
+		fail(pi, e, "argument of a big-endian accessor")
+	}
+	n, ok := sliceIdent(pi, se.X)
+	if !ok {
+		fail(pi, e, "argument of a big-endian accessor")
+	}
+	lo = "(XConst 0%Z)"
+	if se.Low != nil {
+		lo = trSExpr(pi, se.Low)
+	}
+	hi = "None"
+	if se.High != nil {
+		hi = "(Some " + trSExpr(pi, se.High) + ")"
+	}
+	return n, lo, hi
+}
+
+func trSExpr(pi *pkgInfo, e ast.Expr) string {
+	tv := pi.info.Types[e]
+	if tv.Value != nil {
+		if z, ok := coqZ(tv.Value); ok {
+			return "(XConst " + z + ")"
+		}
+	}
+	switch x := e.(type) {
+	case *ast.ParenExpr:
+		return trSExpr(pi, x.X)
+	case *ast.Ident:
+		if v, ok := pi.info.Uses[x].(*types.Var); ok {
+			if _, isSl := v.Type().Underlying().(*types.Slice); isSl {
+				fail(pi, e, "slice %s used as a value", x.Name)
+			}
+			return fmt.Sprintf("(XVar %q)", x.Name)
+		}
+		fail(pi, e, "identifier %s", x.Name)
+	case *ast.BinaryExpr:
+		if isFloat(pi.info.Types[x.X].Type) || isFloat(pi.info.Types[x.Y].Type) {
+			fail(pi, e, "floating-point arithmetic")
+		}
+		if x.Op == token.QUO {
+			return fmt.Sprintf("(XDiv %s %s %s)", coqTy(pi, e, tv.Type), trSExpr(pi, x.X), trSExpr(pi, x.Y))
+		}
+		op, ok := binops[x.Op]
+		if !ok {
+			fail(pi, e, "operator %s", x.Op)
+		}
+		return fmt.Sprintf("(XBin %s %s %s %s)", op, coqTy(pi, e, tv.Type), trSExpr(pi, x.X), trSExpr(pi, x.Y))
+	case *ast.CallExpr:
+		fn := types.ExprString(x.Fun)
+		switch {
+		case (fn == "binary.BigEndian.Uint16" || fn == "binary.BigEndian.Uint32") && len(x.Args) == 1:
+			n, lo, hi := beArg(pi, x.Args[0])
+			return fmt.Sprintf("(XGetBE %s%%Z %q %s %s)", fn[len(fn)-2:], n, lo, hi)
+		case fn == "math.Float32bits" && len(x.Args) == 1:
+			if !isFloat(pi.info.Types[x.Args[0]].Type) {
+				fail(pi, e, "Float32bits of a non-float")
+			}
+			return "(XBits " + trSFloat(pi, x.Args[0]) + ")"
+		case fn == "math.Float32frombits" && len(x.Args) == 1:
+			fail(pi, e, "Float32frombits outside a store into a float32 slice")
+		case len(x.Args) == 1:
+			if ftv, ok := pi.info.Types[x.Fun]; ok && ftv.IsType() {
+				if isFloat(ftv.Type) || isFloat(pi.info.Types[x.Args[0]].Type) {
+					fail(pi, e, "conversion to or from a floating-point type")
+				}
+				return fmt.Sprintf("(XConv %s %s)", coqTy(pi, e, ftv.Type), trSExpr(pi, x.Args[0]))
+			}
+			if id, ok := x.Fun.(*ast.Ident); ok && id.Name == "len" {
+				if n, ok := sliceIdent(pi, x.Args[0]); ok {
+					return fmt.Sprintf("(XLen %q)", n)
+				}
+			}
+		}
+		fail(pi, e, "call of %s", fn)
+	case *ast.IndexExpr:
+		if n, ok := sliceIdent(pi, x.X); ok {
+			if isFloat(tv.Type) {
+				fail(pi, e, "float32 element used as a number")
+			}
+			return fmt.Sprintf("(XIndex %q %s)", n, trSExpr(pi, x.Index))
+		}
+		fail(pi, e, "index expression")
+	}
+	fail(pi, e, "expression %T", e)
+	return ""
+}
+
+// a float32 operand of math.Float32bits: a variable or a slice element, carried as its pattern
+func trSFloat(pi *pkgInfo, e ast.Expr) string {
+	switch x := e.(type) {
+	case *ast.ParenExpr:
+		return trSFloat(pi, x.X)
+	case *ast.Ident:
+		if _, ok := pi.info.Uses[x].(*types.Var); ok {
+			return fmt.Sprintf("(XVar %q)", x.Name)
+		}
+	case *ast.IndexExpr:
+		if n, ok := sliceIdent(pi, x.X); ok {
+			return fmt.Sprintf("(XIndex %q %s)", n, trSExpr(pi, x.Index))
+		}
+	}
+	fail(pi, e, "float32 operand %T", e)
+	return ""
+}
+
+func writesTo(b *ast.BlockStmt, name string) bool {
+	found := false
+	ast.Inspect(b, func(n ast.Node) bool {
+		switch x := n.(type) {
+		case *ast.AssignStmt:
+			for _, l := range x.Lhs {
+				if mentions(l, name) {
+					found = true
+				}
+			}
+		case *ast.CallExpr:
+			if strings.HasPrefix(types.ExprString(x.Fun), "binary.BigEndian.Put") && len(x.Args) > 0 && mentions(x.Args[0], name) {
+				found = true
+			}
+		}
+		return !found
+	})
+	return found
+}
+
+func trSBlock(pi *pkgInfo, b *ast.BlockStmt) string {
+	parts := []string{}
+	for _, s := range b.List {
+		parts = append(parts, trSStmt(pi, s))
+	}
+	return "[" + strings.Join(parts, ";\n ") + "]"
+}
+
+func trSStmt(pi *pkgInfo, s ast.Stmt) string {
+	switch x := s.(type) {
+	case *ast.AssignStmt:
+		if len(x.Lhs) != 1 || len(x.Rhs) != 1 {
+			fail(pi, s, "multiple assignment")
+		}
+		switch l := x.Lhs[0].(type) {
+		case *ast.Ident:
+			if x.Tok != token.DEFINE {
+				fail(pi, s, "assignment to a variable (only declarations are in the fragment)")
+			}
+			v, ok := pi.info.Defs[l].(*types.Var)
+			if !ok {
+				fail(pi, s, "redeclaration")
+			}
+			if sl, ok := v.Type().Underlying().(*types.Slice); ok {
+				call, ok := x.Rhs[0].(*ast.CallExpr)
+				if !ok || types.ExprString(call.Fun) != "make" || len(call.Args) != 2 {
+					fail(pi, s, "slice declared by something else than make([]T, n)")
+				}
+				return fmt.Sprintf("TMake %q %s %s", l.Name, elemTy(pi, s, sl.Elem()), trSExpr(pi, call.Args[1]))
+			}
+			return fmt.Sprintf("TDecl %q %s %s", l.Name, coqTy(pi, s, v.Type()), trSExpr(pi, x.Rhs[0]))
+		case *ast.IndexExpr:
+			n, ok := sliceIdent(pi, l.X)
+			if !ok || x.Tok != token.ASSIGN {
+				fail(pi, s, "store form")
+			}
+			rhs := x.Rhs[0]
+			if isFloat(pi.info.Types[l].Type) {
+				// a float32 element takes math.Float32frombits(e) only
+				call, ok := rhs.(*ast.CallExpr)
+				if !ok || types.ExprString(call.Fun) != "math.Float32frombits" || len(call.Args) != 1 {
+					fail(pi, s, "store into a float32 slice of something else than math.Float32frombits(e)")
+				}
+				return fmt.Sprintf("TStore %q %s (XBits %s)", n, trSExpr(pi, l.Index), trSExpr(pi, call.Args[0]))
+			}
+			return fmt.Sprintf("TStore %q %s %s", n, trSExpr(pi, l.Index), trSExpr(pi, rhs))
+		}
+		fail(pi, s, "assignment form")
+	case *ast.ExprStmt:
+		call, ok := x.X.(*ast.CallExpr)
+		if !ok {
+			fail(pi, s, "expression statement")
+		}
+		fn := types.ExprString(call.Fun)
+		if (fn == "binary.BigEndian.PutUint16" || fn == "binary.BigEndian.PutUint32") && len(call.Args) == 2 {
+			n, lo, hi := beArg(pi, call.Args[0])
+			if hi != "None" {
+				fail(pi, s, "PutUint on s[lo:hi]")
+			}
+			return fmt.Sprintf("TPutBE %s%%Z %q %s %s", fn[len(fn)-2:], n, lo, trSExpr(pi, call.Args[1]))
+		}
+		fail(pi, s, "call of %s", fn)
+	case *ast.RangeStmt:
+		k, ok := x.Key.(*ast.Ident)
+		n, ok2 := sliceIdent(pi, x.X)
+		if !ok || !ok2 || k.Name == "_" || x.Tok != token.DEFINE {
+			fail(pi, s, "range form")
+		}
+		if writesTo(x.Body, n) && x.Value != nil {
+			fail(pi, s, "the ranged slice is written in the loop")
+		}
+		if x.Value == nil {
+			return fmt.Sprintf("TRangeI %q %q\n %s", k.Name, n, trSBlock(pi, x.Body))
+		}
+		v, ok := x.Value.(*ast.Ident)
+		if !ok || v.Name == "_" {
+			fail(pi, s, "range form")
+		}
+		vv := pi.info.Defs[v].(*types.Var)
+		return fmt.Sprintf("TRangeIV %q %q %s %q\n %s", k.Name, v.Name, elemTy(pi, s, vv.Type()), n, trSBlock(pi, x.Body))
+	case *ast.ReturnStmt:
+		if len(x.Results) == 1 {
+			if n, ok := sliceIdent(pi, x.Results[0]); ok {
+				return fmt.Sprintf("TReturn %q", n)
+			}
+		}
+		fail(pi, s, "return form")
+	}
+	fail(pi, s, "statement %T", s)
+	return ""
+}
+
+func emitSliceFunc(out *strings.Builder, pi *pkgInfo, name string) {
+	for _, f := range pi.files {
+		for _, d := range f.Decls {
+			fd, ok := d.(*ast.FuncDecl)
+			if !ok || fd.Recv != nil || fd.Name.Name != name || fd.Body == nil {
+				continue
+			}
+			func() {
+				defer func() {
+					if r := recover(); r != nil {
+						u, ok := r.(unsupported)
+						if !ok {
+							panic(r)
+						}
+						fmt.Fprintf(out, "(* %s.%s is outside the MiniGo slice fragment: %s *)\n", pi.name, name, u.msg)
+					}
+				}()
+				// binary and math must be the standard packages, imported under their own names
+				imp := map[string]string{}
+				for _, is := range f.Imports {
+					path := strings.Trim(is.Path.Value, "\"")
+					nm := path[strings.LastIndex(path, "/")+1:]
+					if is.Name != nil {
+						nm = is.Name.Name
+					}
+					imp[nm] = path
+				}
+				uses := func(pkg string) bool { return mentions(fd.Body, pkg) }
+				if (uses("binary") && imp["binary"] != "encoding/binary") || (uses("math") && imp["math"] != "math") {
+					fail(pi, fd, "binary / math are not encoding/binary and math")
+				}
+				// every identifier declared at most once (no shadowing: block scoping is then a matter of dropping)
+				seen := map[string]bool{}
+				declare := func(id *ast.Ident) {
+					if id == nil || id.Name == "_" {
+						return
+					}
+					if seen[id.Name] || id.Name == "binary" || id.Name == "math" || id.Name == "len" || id.Name == "make" {
+						fail(pi, id, "identifier %s declared twice or shadowing", id.Name)
+					}
+					seen[id.Name] = true
+				}
+				var params []string
+				for _, p := range fd.Type.Params.List {
+					for _, id := range p.Names {
+						declare(id)
+						sl, ok := pi.info.Defs[id].Type().Underlying().(*types.Slice)
+						if !ok {
+							fail(pi, p, "parameter %s is not a slice", id.Name)
+						}
+						params = append(params, fmt.Sprintf("(%q, %s)", id.Name, elemTy(pi, p, sl.Elem())))
+					}
+				}
+				if fd.Type.Results == nil || len(fd.Type.Results.List) != 1 || len(fd.Type.Results.List[0].Names) != 0 {
+					fail(pi, fd, "result list")
+				}
+				ast.Inspect(fd.Body, func(n ast.Node) bool {
+					switch x := n.(type) {
+					case *ast.AssignStmt:
+						if x.Tok == token.DEFINE {
+							for _, l := range x.Lhs {
+								if id, ok := l.(*ast.Ident); ok {
+									declare(id)
+								}
+							}
+						}
+					case *ast.RangeStmt:
+						if x.Tok == token.DEFINE {
+							if id, ok := x.Key.(*ast.Ident); ok {
+								declare(id)
+							}
+							if id, ok := x.Value.(*ast.Ident); ok {
+								declare(id)
+							}
+						}
+					case *ast.FuncLit, *ast.DeclStmt, *ast.GoStmt, *ast.DeferStmt:
+						fail(pi, n, "statement %T", n)
+					}
+					return true
+				})
+				body := trSBlock(pi, fd.Body)
+				fmt.Fprintf(out, "Definition go_%s_%s : sfunc := {| sf_name := %q; sf_params := [%s]; sf_body :=\n %s |}.\n",
+					pi.name, name, pi.name+"."+name, strings.Join(params, "; "), body)
+			}()
+			return
+		}
+	}
+	fmt.Fprintf(out, "(* %s.%s: not found *)\n", pi.name, name)
+}
+
 // ---------- a constant string assigned to a local variable of a function (e.g. the SQLite pragmas) ----------
 func emitLocalString(out *strings.Builder, pi *pkgInfo, coqName, fn, variable string) {
 	var found []string
@@ -582,7 +931,7 @@ func main() {
 	flag.Parse()
 	var out strings.Builder
 	out.WriteString("(* GENERATED on every run by harness/cmd/anchors from the Go sources of the repository under test.\n   Do not edit: the theorems of Anchors/Tie*.v are re-checked against this text. *)\n")
-	out.WriteString("From Coq Require Import ZArith NArith List String.\nFrom Verif Require Import MiniGo.Syntax MiniGo.Recipe.\nImport ListNotations.\nOpen Scope string_scope.\n\n")
+	out.WriteString("From Coq Require Import ZArith NArith List String.\nFrom Verif Require Import MiniGo.Syntax MiniGo.Slice MiniGo.Recipe.\nImport ListNotations.\nOpen Scope string_scope.\n\n")
 	sections := []struct {
 		dir string
 		f   func(pi *pkgInfo)
@@ -591,6 +940,11 @@ func main() {
 			emitConsts(&out, pi, nil)
 			emitMap(&out, pi, "minRequestLen")
 			emitFunc(&out, pi, "RtuCrc")
+			for _, fn := range []string{"PutUint16Array", "Uint16Array", "RegsToInt16", "RegsToUint32", "RegsToUint32SwapWords",
+				"Uint32ToRegs", "Uint32ToRegsSwapRegs", "RegsToInt32", "RegsToInt32SwapWords", "Int32ToRegs", "Int32ToRegsSwapWords",
+				"RegsToFloat32", "RegsToFloat32SwapWords", "Float32ToRegs", "Float32ToRegsSwapWords"} {
+				emitSliceFunc(&out, pi, fn)
+			}
 		}},
 		{"data", func(pi *pkgInfo) {
 			emitConsts(&out, pi, func(n string) bool {
